@@ -64,7 +64,14 @@ def parseFloat (s : Str) : PF :=
     match ratBits neg mant (10 ^ k) with
     | some b => .ok b
     | none => .unmodelled
-  | none => if s.any exoticFloatChar then .unmodelled else .err
+  | none =>
+    -- every syntax `ParseFloat` accepts holds a decimal digit, except the words inf / infinity / nan
+    -- (any case; the first two with an optional sign): a string with no digit that is none of them is a
+    -- syntax error whatever letters it holds
+    let low := s.map Char.toLower
+    let word := match low with | '-' :: r => r | '+' :: r => r | _ => low
+    if s.any exoticFloatChar && (s.any Char.isDigit || word = "inf".toList || word = "infinity".toList || low = "nan".toList)
+    then .unmodelled else .err
 
 /-- bits → (negative, m, e) with value `m · 2^e`; `none` for Inf/NaN -/
 def decodeBits (b : Nat) : Option (Bool × Nat × Int) :=
@@ -105,14 +112,31 @@ def roundDigits (num den : Nat) (n : Nat) : Nat × Int :=
   let d := if s ≥ 0 then rne (num * 10 ^ s.toNat) den else rne num (den * 10 ^ (-s).toNat)
   if d = 10 ^ n then (10 ^ (n - 1), dp + 1) else (d, dp)
 
-/-- shortest digits that read back to the same double (search over the digit count) -/
+/-- the two `n`-digit decimals around `num/den`, the correctly rounded one first -/
+def nearDigits (num den : Nat) (n : Nat) : (Nat × Int) × (Nat × Int) :=
+  let dp := decPoint num den
+  let s : Int := (n : Int) - dp
+  let (a, b) : Nat × Nat := if s ≥ 0 then (num * 10 ^ s.toNat, den) else (num, den * 10 ^ (-s).toNat)
+  let fl := a / b
+  let r := rne a b
+  let norm (d : Nat) : Nat × Int := if d = 10 ^ n then (10 ^ (n - 1), dp + 1) else (d, dp)
+  (norm r, norm (if r = fl then fl + 1 else fl))
+
+/-- shortest digits that read back to the same double (search over the digit count).  At each
+    count the correctly rounded decimal is tried first and then its neighbour on the other side:
+    around a power of two the interval of decimals that read back reaches twice as far above the
+    value as below it, so the neighbour can be inside when the nearest is not
+    (`ryuDigits32`: `l == c+1 && c < u`, and `central < upper && cup`) -/
 def shortestDigits (b num den : Nat) : Nat → Nat → Option (Nat × Nat × Int)
   | 0, _ => none
   | fuel + 1, n =>
-    let (d, dp) := roundDigits num den n
-    let s : Int := dp - (n : Int)
-    let back := if s ≥ 0 then ratBits false (d * 10 ^ s.toNat) 1 else ratBits false d (10 ^ (-s).toNat)
-    if back = some (b % 2 ^ 63) then some (d, n, dp) else shortestDigits b num den fuel (n + 1)
+    let back (c : Nat × Int) : Bool :=
+      let s : Int := c.2 - (n : Int)
+      (if s ≥ 0 then ratBits false (c.1 * 10 ^ s.toNat) 1 else ratBits false c.1 (10 ^ (-s).toNat)) = some (b % 2 ^ 63)
+    let (c1, c2) := nearDigits num den n
+    if back c1 then some (c1.1, n, c1.2)
+    else if back c2 then some (c2.1, n, c2.2)
+    else shortestDigits b num den fuel (n + 1)
 
 /-- `%f` layout of a digit string with the point at `dp` and `prec` fraction digits -/
 def fmtF (ds : Str) (dp : Int) (prec : Nat) : Str :=
